@@ -188,19 +188,103 @@ def all_functions(repo: Repo):
                         yield rel, node.name + "." + sub.name, sub, node.name
 
 
+def _self_callees(fn):
+    """Names of methods called on self (or on the graph parameter) and of plain functions called by name."""
+    meth, funcs = set(), set()
+    for n in walk_no_nested(fn):
+        if isinstance(n, ast.Call):
+            f = n.func
+            if isinstance(f, ast.Attribute) and isinstance(f.value, ast.Name) and f.value.id in ({"self"} | GRAPH_PARAMS):
+                meth.add(_unmangle(f.attr))
+            elif isinstance(f, ast.Name):
+                funcs.add(f.id)
+    return meth, funcs
+
+
+def _unmangle(name):
+    return name
+
+
+def is_private(name):
+    return name.startswith("_") and not (name.startswith("__") and name.endswith("__"))
+
+
+class CallIndex:
+    """Who calls whom inside the dynetx classes and modules (by name; methods per class, functions per module)."""
+
+    def __init__(self, repo: Repo):
+        self.repo = repo
+        self.fns = {}       # (rel, cls or None, name) -> fn
+        for rel, qual, fn, cls in all_functions(repo):
+            self.fns[(rel, cls, qual.split(".")[-1])] = fn
+        self.callers = {}   # key -> set of caller keys
+        for (rel, cls, name), fn in self.fns.items():
+            meth, funcs = _self_callees(fn)
+            for m in meth:
+                if cls is not None and (rel, cls, m) in self.fns:
+                    self.callers.setdefault((rel, cls, m), set()).add((rel, cls, name))
+                elif cls is None:
+                    # a functional form calling G.method: both classes
+                    for c, r in CLASSES.items():
+                        if (r, c, m) in self.fns:
+                            self.callers.setdefault((r, c, m), set()).add((rel, cls, name))
+            for f in funcs:
+                if (rel, None, f) in self.fns:
+                    self.callers.setdefault((rel, None, f), set()).add((rel, cls, name))
+
+    def callees(self, key):
+        rel, cls, name = key
+        fn = self.fns[key]
+        meth, funcs = _self_callees(fn)
+        out = set()
+        for m in meth:
+            if cls is not None and (rel, cls, m) in self.fns:
+                out.add((rel, cls, m))
+        for f in funcs:
+            if (rel, None, f) in self.fns:
+                out.add((rel, None, f))
+        return out
+
+
+def owner_closure(repo: Repo, idx: CallIndex):
+    """Owners plus the private helpers that are reachable only from owners (an extracted step of a mutator)."""
+    admitted = {}
+    for key in idx.fns:
+        rel, cls, name = key
+        if cls in CLASSES and name in OWNERS:
+            admitted[key] = set(OWNERS[name])
+    changed = True
+    while changed:
+        changed = False
+        for key in idx.fns:
+            rel, cls, name = key
+            if key in admitted or not is_private(name):
+                continue
+            callers = idx.callers.get(key, set())
+            if callers and all(c in admitted for c in callers):
+                allow = set()
+                for c in callers:
+                    allow |= admitted[c]
+                admitted[key] = allow
+                changed = True
+    return admitted
+
+
 def check_ownership(repo: Repo, add):
     """W1.  add(rule, construct, key, message, line).  Returns (#functions, #write sites)."""
     nfn = nsites = 0
+    idx = CallIndex(repo)
+    admitted = owner_closure(repo, idx)
     for rel, qual, fn, cls in all_functions(repo):
         nfn += 1
         name = qual.split(".")[-1]
-        allowed = OWNERS.get(name, set()) if cls in CLASSES else set()
+        allowed = admitted.get((rel, cls, name), set())
         for (root, owner, kind, node) in Taint(fn).writes():
             if root not in TEMPORAL:
                 continue
             nsites += 1
             ok = root in allowed or (kind == "rebind" and (root + ":rebind") in allowed)
-            if kind == "rebind" and (root + ":rebind") in allowed:
+            if kind == "rebind" and (root + ":rebind") in allowed and root not in allowed:
                 # a whole-index reset must install an empty container
                 v = getattr(node, "value", None)
                 if not _is_empty_container(v):
@@ -208,8 +292,8 @@ def check_ownership(repo: Repo, add):
             if ok:
                 continue
             add("W1.owner", repo.construct(rel, qual), "%s:%s" % (root, kind.split(":")[0]),
-                "%s writes the %s store (%s) - only add_interaction may (timelines, event log and counters must "
-                "change together)" % (qual, root, src(node)[:90]), getattr(node, "lineno", 0))
+                "%s writes the %s store (%s) - only add_interaction (or a private step called only by it) may: timelines, event "
+                "log and counters must change together" % (qual, root, src(node)[:90]), getattr(node, "lineno", 0))
     return nfn, nsites
 
 
@@ -222,18 +306,22 @@ def _is_empty_container(v):
 
 
 def check_purity(repo: Repo, add, only=None):
-    """W2: queries never write through self / their graph parameter."""
+    """W2: public queries never write through self / their graph parameter - directly or through helpers they call."""
     n = 0
+    idx = CallIndex(repo)
+    direct = {}
+    for key, fn in idx.fns.items():
+        rel, cls, name = key
+        bases = {"self"} if cls in CLASSES else (GRAPH_PARAMS & {a.arg for a in fn.args.args})
+        direct[key] = [(root, owner, kind, node) for (root, owner, kind, node) in Taint(fn).writes() if owner in bases]
     for rel, qual, fn, cls in all_functions(repo):
         name = qual.split(".")[-1]
         if cls in CLASSES:
-            if name in MUTATOR_METHODS:
+            if name in MUTATOR_METHODS or is_private(name) and name != "__presence_test":
                 continue
-            bases = {"self"}
         elif rel == FUNCTION:
-            if name in FUNCTION_MUTATORS:
+            if name in FUNCTION_MUTATORS or is_private(name):
                 continue
-            bases = GRAPH_PARAMS & {a.arg for a in fn.args.args}
         else:
             continue
         if only and name not in only:
@@ -242,11 +330,23 @@ def check_purity(repo: Repo, add, only=None):
         decos = [src(d) for d in fn.decorator_list]
         if any("not_implemented" in d for d in decos):
             continue
-        for (root, owner, kind, node) in Taint(fn).writes():
-            if owner in bases:
+        # everything the query reaches through self-calls, not crossing into declared mutators
+        seen, stack = set(), [(rel, cls, name)]
+        while stack:
+            k = stack.pop()
+            if k in seen:
+                continue
+            seen.add(k)
+            for c in idx.callees(k):
+                if c[1] in CLASSES and c[2] in MUTATOR_METHODS:
+                    continue
+                stack.append(c)
+        for k in sorted(seen, key=str):
+            for (root, owner, kind, node) in direct.get(k, []):
+                via = "" if k == (rel, cls, name) else " (through %s)" % k[2]
                 add("W2.pure-query", repo.construct(rel, qual), "%s:%s" % (root, kind.split(":")[0]),
-                    "query %s writes graph state through %s (%s): observers must leave the graph unchanged" % (
-                        qual, owner, src(node)[:90]), getattr(node, "lineno", 0))
+                    "query %s writes graph state through %s%s (%s): observers must leave the graph unchanged" % (
+                        qual, owner, via, src(node)[:90]), getattr(node, "lineno", 0))
     return n
 
 
